@@ -23,6 +23,7 @@ type Obl struct {
 	Pos     token.Position
 	Extra   []string // extra assertions local to this obligation
 	Inputs  []string // names of SMT constants that are the function's inputs (for models)
+	Short   bool     // not in the baseline and only panic-freedom: one short solver attempt
 	enc     *Enc
 }
 
@@ -197,6 +198,15 @@ func (e *Enc) assert(s string) {
 	e.asserts = append(e.asserts, s)
 }
 
+// fact adds a fact about values of the current point: guarded by reachability when inside a block.
+func (e *Enc) fact(s string) {
+	if e.curBlock != nil {
+		e.assume(s)
+		return
+	}
+	e.assert(s)
+}
+
 // assume adds a fact that holds when the current block is reached.
 func (e *Enc) assume(s string) {
 	e.assert(imp(e.at[e.curBlock], s))
@@ -261,6 +271,72 @@ var epochCounter int
 
 func (e *Enc) newEpoch() int { epochCounter++; return epochCounter }
 
+// writerGhosts: ghost maps indexed by an io.Writer value. A call without contract can change them only at the
+// writer values it receives as arguments (documented assumption: the destination writer is not reachable otherwise).
+var writerGhosts = []string{"G|out", "G|failed"}
+
+func hasWriteMethod(t types.Type) bool {
+	ms := types.NewMethodSet(t)
+	for i := 0; i < ms.Len(); i++ {
+		if ms.At(i).Obj().Name() == "Write" {
+			return true
+		}
+	}
+	return false
+}
+
+// havocAllArgs is havocAll for a call: writer ghosts survive except at the argument indices.
+func (e *Enc) havocAllArgs(args []TV) {
+	saved := map[string]string{}
+	for _, k := range writerGhosts {
+		if g := e.w.cs.Ghosts[strings.TrimPrefix(k, "G|")]; g != nil {
+			e.ghostKey(g)
+		}
+		if _, ok := e.compSort[k]; ok {
+			saved[k] = e.get(e.st, k)
+		}
+	}
+	preAlloc := e.get(e.st, e.allocKey())
+	e.havocAll()
+	for _, k := range writerGhosts {
+		old, ok := saved[k]
+		if !ok {
+			continue
+		}
+		vs := splitArraySort(strings.TrimSuffix(strings.TrimPrefix(e.compKeySort(k), "(Array "), ")"))
+		t := old
+		for _, a := range args {
+			var idx string
+			switch {
+			case a.Sort == sVal:
+				if a.T == nil || !hasWriteMethod(a.T) {
+					continue
+				}
+				idx = a.S
+			case a.Sort == sInt && a.T != nil && isRefType(a.T) && hasWriteMethod(a.T):
+				idx = e.box(a, a.T)
+			default:
+				continue
+			}
+			t = store(t, idx, e.fresh("hvw", vs))
+		}
+		// writers allocated by the callee are unconstrained anyway (fresh indices were never read)
+		_ = preAlloc
+		if t != old && e.curBlock != nil {
+			if e.writes[e.curBlock] == nil {
+				e.writes[e.curBlock] = map[string]bool{}
+			}
+			e.writes[e.curBlock][k] = true
+		}
+		e.st.m[k] = t
+		if !isAtom(t) {
+			c := e.fresh("s_"+k, e.compKeySort(k))
+			e.assert(eq(c, t))
+			e.st.m[k] = c
+		}
+	}
+}
+
 // havocAll forgets everything except private locals and iterators.
 func (e *Enc) havocAll() {
 	old := e.st
@@ -314,10 +390,10 @@ func (e *Enc) arrKeyT(el types.Type) string {
 // closure asserts that every reference stored in heap component `term` is allocated w.r.t. allocTerm.
 func (e *Enc) closure(key, term, allocTerm string) {
 	if strings.HasPrefix(key, "Arr|") {
-		e.assert(fmt.Sprintf("(forall ((b Int) (i Int)) (! (<= (select (select %s b) i) %s) :pattern ((select (select %s b) i))))", term, allocTerm, term))
+		e.assert(fmt.Sprintf("(forall ((b Int) (i Int)) (! (=> (<= b %s) (<= (select (select %s b) i) %s)) :pattern ((select (select %s b) i))))", allocTerm, term, allocTerm, term))
 		return
 	}
-	e.assert(fmt.Sprintf("(forall ((x Int)) (! (<= (select %s x) %s) :pattern ((select %s x))))", term, allocTerm, term))
+	e.assert(fmt.Sprintf("(forall ((x Int)) (! (=> (<= x %s) (<= (select %s x) %s)) :pattern ((select %s x))))", allocTerm, term, allocTerm, term))
 }
 
 // closureElem: same for one fresh element of the component (a field value or one backing array).
@@ -546,21 +622,21 @@ func (e *Enc) typeFacts(c string, t types.Type) {
 	case *types.Basic:
 		if u.Info()&types.IsInteger != 0 {
 			if u.Info()&types.IsUnsigned != 0 {
-				e.assert(fmt.Sprintf("(>= %s 0)", c))
+				e.fact(fmt.Sprintf("(>= %s 0)", c))
 			}
 			switch u.Kind() {
 			case types.Uint8:
-				e.assert(fmt.Sprintf("(<= %s 255)", c))
+				e.fact(fmt.Sprintf("(<= %s 255)", c))
 			case types.Int32:
-				e.assert(fmt.Sprintf("(and (<= (- 2147483648) %s) (<= %s 2147483647))", c, c))
+				e.fact(fmt.Sprintf("(and (<= (- 2147483648) %s) (<= %s 2147483647))", c, c))
 			}
 		}
 	case *types.Interface:
-		e.assert(fmt.Sprintf("(wfVal %s)", c))
+		e.fact(fmt.Sprintf("(wfVal %s)", c))
 	case *types.Slice:
-		e.assert(fmt.Sprintf("(and (>= (slen %s) 0) (>= (sbase %s) 0) (=> (= (sbase %s) 0) (= (slen %s) 0)))", c, c, c, c))
+		e.fact(fmt.Sprintf("(and (>= (slen %s) 0) (>= (sbase %s) 0) (=> (= (sbase %s) 0) (= (slen %s) 0)))", c, c, c, c))
 	case *types.Pointer, *types.Map:
-		e.assert(fmt.Sprintf("(>= %s (- 100000))", c))
+		e.fact(fmt.Sprintf("(>= %s (- 100000))", c))
 	}
 }
 
